@@ -9,7 +9,7 @@ TARGET = os.path.join(HERE, ".cache", "target_native")
 _BUILT = {}
 
 
-def build(features=("p_common", "p_tfm")):
+def build(features=("p_common", "p_tfm", "p_knuthplass")):
     key = tuple(features)
     if key in _BUILT:
         return _BUILT[key]
